@@ -464,7 +464,18 @@ SEQ_PRELUDE = '- &x [1, 2]\n- &y {k: v}\n'
 SEQ_ITEMS = ['!!python/tuple [*x]', '!!python/object/apply:vf_shapes.make_factory [*x, 1]', '!!python/object/new:vf_shapes.NewArgs [*x, 2]',
              '!!python/object:vf_shapes.StateDict {A: *x, B: 1}', '!!python/object/apply:vf_shapes.make_factory [[*x], 1]', '&r [1, *r]', '&m {self: *m}', '&s [[*s]]',
              '&o !!python/object:vf_shapes.Plain {me: *o}', 'plain', '*x', '!!python/object/apply:vf_shapes.make_factory [*y, *x]', '!!set {a, b}',
-             '!!python/object/apply:collections.OrderedDict [[[a, *x], [b, 2]]]', '&t !!python/tuple [[*t]]', '!!python/object/new:vf_shapes.Slots {state: !!python/tuple [null, {x: *x}]}']
+             '!!python/object/apply:collections.OrderedDict [[[a, *x], [b, 2]]]', '&t !!python/tuple [[*t]]', '!!python/object/new:vf_shapes.Slots {state: !!python/tuple [null, {x: *x}]}',
+             # self-references inside eagerly built (deep) state that cannot be built: ConstructorError, never another exception
+             '!!python/object/apply:vf_shapes.make_factory [&k {*k : 1}, 1]', '!!python/object:vf_shapes.StateDict {A: &j {? *j : 1}, B: 1}',
+             '!!python/object/new:vf_shapes.NewArgs [&q [!!python/tuple [*q]], 2]',
+             # an anchored constructed object used as a key / set member whose own state refers back to it: buildable
+             '{? &n !!python/object:vf_shapes.Plain {me: *n} : 1}', '!!set {? &p !!python/object:vf_shapes.Plain {me: *p, other: *x}}',
+             '{? &u !!python/tuple [1, s] : *u}']
+# absolute expectations for some items (index -> outcome class when loaded alone after the prelude, optional verifier)
+SEQ_EXPECT = {16: ('ConstructorError', None), 17: ('ConstructorError', None),
+              19: ('ok', lambda item: len(item) == 1 and list(item)[0].me is list(item)[0]),
+              20: ('ok', lambda item: len(item) == 1 and list(item)[0].me is list(item)[0]),
+              21: ('ok', lambda item: list(item.values())[0] is list(item)[0])}
 _ALONE = {}
 
 
@@ -484,18 +495,13 @@ def check_sequencing(T, idx):
     the prelude (differential oracle: the state reached after other nodes were built vs the initial state)"""
     from .c17 import canon as ocanon
     import vf_shapes
-    names = set()
+    import re as _re
     items = []
-    for j in idx:
+    for pos, j in enumerate(idx):
         it = SEQ_ITEMS[j]
-        # anchors of repeated items must stay unique within the document
-        if it[0] == '&':
-            nm = it[1]
-            k = 0
-            while nm + str(k) in names:
-                k += 1
-            names.add(nm + str(k))
-            it = it.replace('&' + nm, '&' + nm + str(k)).replace('*' + nm, '*' + nm + str(k))
+        # anchors defined inside an item get a per-position suffix so that repeated items do not clash
+        for nm in set(_re.findall(r'&([a-z])\b', it)):
+            it = _re.sub(r'([&*])%s\b' % nm, r'\g<1>%s%d' % (nm, pos), it)
         items.append(it)
     text = SEQ_PRELUDE + ''.join('- %s\n' % it for it in items)
     case = {'doc': text, 'items': list(idx)}
@@ -510,6 +516,14 @@ def check_sequencing(T, idx):
             if key not in _ALONE:
                 r = _seq_load(SEQ_PRELUDE + '- %s\n' % SEQ_ITEMS[j], L)
                 _ALONE[key] = (r[0], ocanon(r[1]) if r[0] == 'ok' else r[1])
+                if j in SEQ_EXPECT:
+                    want_cls, verify = SEQ_EXPECT[j]
+                    if r[0] != want_cls:
+                        T.violation('sequencing', 'item-outcome', {'doc': SEQ_PRELUDE + '- %s\n' % SEQ_ITEMS[j], 'items': [j]},
+                                    detail='%s: %s alone gives %s %s, expected %s' % (ln, SEQ_ITEMS[j], r[0], r[1] if r[0] != 'ok' else '', want_cls))
+                    elif verify is not None and not verify(r[1][2]):
+                        T.violation('sequencing', 'item-identity', {'doc': SEQ_PRELUDE + '- %s\n' % SEQ_ITEMS[j], 'items': [j]},
+                                    detail='%s: %s loads, but the self-reference inside the key does not denote the key object' % (ln, SEQ_ITEMS[j]))
             if _ALONE[key][0] != 'ok':
                 bad = _ALONE[key][0]
             want_items.append(_ALONE[key])
